@@ -2,11 +2,12 @@
 Model driver for C17 (metamap / host object dispatch).
 
 Request (one line, S-expressions):
-  arith <add|sub|mul|div|rem|pow> <opd> <opd>      compound <op> <opd> <opd> [same]
+  arith <add|sub|mul|div|rem|pow> <opd> <opd>      compound <op> <opd> <opd> <0|1 same instance>
   cmp <lt|le|gt|ge|eq|ne> <opd> <opd>
   neg|not|size|call|for|tolist|reversed|type|display|displaynested|debug <opd>
   index|indexassign <opd> <num0|str>
   access|method|accessassign <opd> <key id>
+  daccess|dmethod|daccessassign <derived> <key id>   (host objects defined with #[koto_impl])
   lookup <key id> <layer>*                          (access chain only: hit / miss / badBase / coreMap)
 opd   := (p <kind>) | (m <layer>+) | (h <name> <gen> <ni|it|(fw n)|(bi n)> (<HM> <beh>)*)
 layer := (L <name> (d <key>*) <src>)       src := - | (own <meta>) | (sh <proto> <meta>|-)
@@ -22,7 +23,7 @@ open KotoVerif KotoVerif.Proto KotoVerif.Meta KotoVerif.Gen
 
 /-- harness convention: key ids ↦ names in scripts; 3 is a `map` module function, 4 an `iterator`
 module function, 2 holds function values -/
-def keyNames : List String := ["ka", "kb", "kf", "keys", "to_tuple"]
+def keyNames : List String := ["ka", "kb", "kf", "keys", "to_tuple", "m1", "m1b", "g1", "g1b", "s1", "zz"]
 def keyName (k : Nat) : String := keyNames.getD k s!"k{k}"
 def mods : Mods := { inMap := fun k => k == 3, inIter := fun k => k == 4, isFn := fun k => k == 2 }
 
@@ -152,11 +153,18 @@ def avStr : AV → String
     else s!"s:n{l}.{match s with | .data => "d" | .named => "m"}.k{k}"
   | .core m k => s!"core:{match m with | .map => "map" | .iterator => "iterator"}.k{k}"
   | .key k => s!"s:{keyName k}"
+  | .native => "native"
   | .builtin => "builtin"
   | .shown pre => s!"shown:{match pre with | some t => tyStr t | none => "-"}"
   | .ty t => s!"ty:{tyStr t}"
 
+def dfnStr : DFn → String
+  | .getOverride => "get_override" | .getFallback => "get_fallback"
+  | .setOverride => "set_override" | .setFallback => "set_fallback"
+  | .method f => s!"method{f}" | .getter f => s!"getter{f}" | .setter f => s!"setter{f}"
+
 def evKeyStr : EvKey → String
+  | .dv f => s!"dv.{dfnStr f}"
   | .mk k => k.name
   | .host m => s!"h.{hmName m}"
   | .copy => "copy"
@@ -173,6 +181,7 @@ def errStr : Err → String
   | .thrown => "E:thrown"
   | .hostErr => "E:herr"
   | .notFound => "E:notfound"
+  | .unexpectedKey => "E:unexpectedkey"
   | .oob => "E:oob"
   | .noIndex => "E:noindex"
   | .iterThrown => "E:iter:thrown"
@@ -193,6 +202,27 @@ def arithTable : List (String × ArithOp) :=
 def cmpTable : List (String × CmpOp) :=
   [("lt", .lt), ("le", .le), ("gt", .gt), ("ge", .ge), ("eq", .eq), ("ne", .ne)]
 
+def parsePairs (xs : List Sexp) : Option (List (Nat × Nat)) :=
+  xs.mapM (fun e => match e with
+    | Sexp.list [a, b] => do pure ((← a.nat?), (← b.nat?))
+    | _ => none)
+
+def parseOptKeys : Sexp → Option (Option (List Nat))
+  | .atom "-" => some none
+  | .list xs => (xs.mapM Sexp.nat?).map some
+  | _ => none
+
+/-- `(dv <name> (methods (k f)*) (getters (k f)*) (setters (k f)*) <ov> <fb> <sov> <sfb>)`,
+each of the last four `-` or `(<key>*)` -/
+def parseDerived : Sexp → Option DerivedD
+  | .list [.atom "dv", name, .list (.atom "methods" :: ms), .list (.atom "getters" :: gs),
+      .list (.atom "setters" :: ss), ov, fb, sov, sfb] => do
+    pure { name := (← name.nat?), methods := (← parsePairs ms), getters := (← parsePairs gs),
+           setters := (← parsePairs ss), getOverride := (← parseOptKeys ov),
+           getFallback := (← parseOptKeys fb), setOverride := (← parseOptKeys sov),
+           setFallback := (← parseOptKeys sfb) }
+  | _ => none
+
 def parseIdx : Sexp → Option IdxK
   | .atom "num0" => some .num0
   | .atom "str" => some .str
@@ -208,10 +238,8 @@ def handle (line : String) : String :=
   match parseLine line with
   | [.atom "arith", .atom op, a, b] =>
     (do pure (outStr (arith (← arithTable.lookup op) (← parseOpd a) (← parseOpd b)))).getD "bad-request"
-  | [.atom "compound", .atom op, a, b] =>
-    (do pure (outStr (compound (← arithTable.lookup op) (← parseOpd a) (← parseOpd b)))).getD "bad-request"
-  | [.atom "compound-intended", .atom op, a, b, same] =>
-    (do pure (outStr (compoundIntended (← arithTable.lookup op) (← parseOpd a) (← parseOpd b)
+  | [.atom "compound", .atom op, a, b, same] =>
+    (do pure (outStr (compound (← arithTable.lookup op) (← parseOpd a) (← parseOpd b)
       ((← same.nat?) == 1)))).getD "bad-request"
   | [.atom "cmp", .atom op, a, b] =>
     (do pure (outStr (compareOp (← cmpTable.lookup op) (← parseOpd a) (← parseOpd b)))).getD "bad-request"
@@ -236,6 +264,12 @@ def handle (line : String) : String :=
     (do pure (outStr (methodCall mods (← parseOpd a) (← k.nat?)))).getD "bad-request"
   | [.atom "accessassign", a, k] =>
     (do pure (outStr (accessAssign (← parseOpd a) (← k.nat?)))).getD "bad-request"
+  | [.atom "daccess", d, k] =>
+    (do pure (outStr (derivedAccess (← parseDerived d) (← k.nat?)))).getD "bad-request"
+  | [.atom "dmethod", d, k] =>
+    (do pure (outStr (derivedMethod (← parseDerived d) (← k.nat?)))).getD "bad-request"
+  | [.atom "daccessassign", d, k] =>
+    (do pure (outStr (derivedAccessAssign (← parseDerived d) (← k.nat?)))).getD "bad-request"
   | .atom "lookup" :: k :: layers =>
     (do pure (lookStr (lookupLayers (← k.nat?) (← layers.mapM parseLayer)))).getD "bad-request"
   | _ => "bad-request"
